@@ -156,6 +156,7 @@ func c07Q1(r *Run, rep *core.Report, mm *core.MapModel) {
 			rep.Check(stops, "C07.Q1", fn(f)+" stops on false", r.P.InstrPos(in), "a false verdict returns without another visitor call", "a false result of the visitor does not end the traversal immediately")
 		}
 	})
+	c07Q1Collect(r, rep, f)
 	rep.MinCount("C07.Q1", "collect sites in "+fn(f), nAppend, 1)
 	rep.MinCount("C07.Q1", "visitor call sites in "+fn(f), nVisit, 1)
 	// reset between buckets: the slice-typed loop-carried phi of the outer loop receives a zero-length reslice
@@ -536,4 +537,102 @@ func clockFromCall(f, cl *ssa.Function, mc *ssa.MakeClosure, v ssa.Value) bool {
 		}
 	}
 	return false
+}
+
+// c07Q1Collect: every occupied slot met by the scan is collected. A slot that tested non-nil must reach an append
+// to the intermediate slice before the scan moves to the next slot, follows the chain link or releases the lock: a
+// collect guarded by anything else (room left in the pre-allocated slice, a hash filter, a counter) silently skips
+// entries that are present for the whole traversal.
+func c07Q1Collect(r *Run, rep *core.Report, f *ssa.Function) {
+	isSlotLoad := func(v ssa.Value) bool {
+		ld, ok := core.StripConv(v).(*ssa.UnOp)
+		if !ok || ld.Op != token.MUL {
+			return false
+		}
+		ia, ok := ld.X.(*ssa.IndexAddr)
+		return ok && isBucketOwner(r, core.Addr(ia).Owner)
+	}
+	type st struct{ Pending bool }
+	m := &core.Machine[st]{P: r.P, Fn: f, Spec: core.Spec{}, Inline: helperInline(r)}
+	bad := ""
+	var badIn ssa.Instruction
+	nTests := 0
+	report := func(in ssa.Instruction, what string) {
+		if bad == "" {
+			bad = "an occupied slot (tested non-nil) is not collected on a path that " + what + ": the entry is present for the whole traversal and never visited"
+			badIn = in
+		}
+	}
+	m.Step = func(ctx *core.Ctx[st], s st, in ssa.Instruction) []st {
+		if c, ok := in.(ssa.CallInstruction); ok {
+			if core.IsBuiltinCall(c) == "append" {
+				s.Pending = false
+				return []st{s}
+			}
+			if ev := r.M.LockEventOf(in); ev != nil && ev.Class == "bucket" && !ev.Acquire && s.Pending {
+				report(in, "releases the bucket lock")
+				s.Pending = false
+			}
+		}
+		if _, isRet := in.(*ssa.Return); isRet && s.Pending && ctx.Frame == nil {
+			report(in, "returns")
+		}
+		return []st{s}
+	}
+	m.Edge = func(ctx *core.Ctx[st], s st, from *ssa.BasicBlock, idx int) (st, bool) {
+		iff, ok := from.Instrs[len(from.Instrs)-1].(*ssa.If)
+		if !ok {
+			return s, true
+		}
+		cond := iff.Cond
+		neg := false
+		for {
+			if u, isU := cond.(*ssa.UnOp); isU && u.Op == token.NOT {
+				neg = !neg
+				cond = u.X
+				continue
+			}
+			break
+		}
+		b, isB := cond.(*ssa.BinOp)
+		if !isB || (b.Op != token.EQL && b.Op != token.NEQ) {
+			return s, true
+		}
+		for _, pair := range [][2]ssa.Value{{b.X, b.Y}, {b.Y, b.X}} {
+			if !core.IsNilConst(pair[1]) || !isSlotLoad(pair[0]) {
+				continue
+			}
+			// a new slot test while the previous occupied slot is still uncollected
+			if s.Pending {
+				report(iff, "moves on to the next slot")
+				s.Pending = false
+			}
+			nTests++
+			nonNilOnTrue := (b.Op == token.NEQ) != neg
+			if (idx == 0) == nonNilOnTrue {
+				s.Pending = true
+			}
+			return s, true
+		}
+		// the chain-link test ends the scan of this bucket
+		if s.Pending {
+			for _, pair := range [][2]ssa.Value{{b.X, b.Y}, {b.Y, b.X}} {
+				if core.IsNilConst(pair[1]) && linkValue(r, pair[0], 0) {
+					report(iff, "follows the chain link")
+					s.Pending = false
+				}
+			}
+		}
+		return s, true
+	}
+	m.Run()
+	pos := r.P.Pos(f.Pos())
+	if badIn != nil {
+		pos = r.P.InstrPos(badIn)
+	}
+	if nTests == 0 {
+		rep.Undecided("C07.Q1", fn(f)+" collects every occupied slot", pos, "no nil test of a bucket slot found in the traversal")
+		return
+	}
+	rep.Check(bad == "", "C07.Q1", fn(f)+" collects every occupied slot", pos, "every slot that tests non-nil reaches an append to the intermediate slice before the scan moves on", bad)
 }
